@@ -247,7 +247,7 @@ def request_strategy(nlev, nres, max_vars=4, max_its=6):
 @st.composite
 def sim_case(draw, classes, ghost_lo=1, unsupported=False, nlev_max=3,
              nmax=12, fixed_layout=True, group_pool=None, nres_max=3,
-             with_request=True):
+             with_request=True, regrid=False):
     nlev = draw(st.sampled_from([1, 1, 2, 2, 3][:2 * nlev_max - 1]))
     nres = draw(st.integers(1, nres_max))
     restarts = []
@@ -274,6 +274,16 @@ def sim_case(draw, classes, ghost_lo=1, unsupported=False, nlev_max=3,
                   missing=draw(K))
         if fixed_layout:
             rs["per_proc"] = draw(st.booleans())
+        if regrid and mode == "ok":
+            # regridding: from some iteration on, one level is split
+            # differently (only written in one-file layouts). Not part of the
+            # whole-directory cases: the iteration catalogue assumes that a
+            # level keeps its components within a restart (DESIGN 7.2)
+            rdec = draw(supported_dec(classes))
+            need = [max(need[a], rdec["need"][a]) for a in range(3)]
+            rs["regrid"] = dict(rl=draw(st.integers(0, 2)),
+                                at=draw(st.integers(1, 6)), dec=rdec,
+                                perm=draw(st.integers(0, 999)))
         restarts.append(rs)
     if unsupported:
         if any(r["mode"] in ("tree", "missing") for r in restarts):
@@ -356,10 +366,22 @@ def build_spec(case, per_proc=None, grouped=None):
                         ctag="always" if rc["mode"] == "ctag" else "auto",
                         par=(r == 0 or rc["perm"] % 2 == 0),
                         checkpoints=[], xyz=""))
+        rg = rc.get("regrid")
+        if rg and not pp:
+            # finest levels are the ones Carpet regrids
+            grl = (nlev - 1 - rg["rl"]) % nlev
+            if len(its[grl]) > 1:
+                fi = its[grl][1 + (rg["at"] - 1) % (len(its[grl]) - 1)]
+                rss[-1]["regrid"] = [dict(
+                    rl=grl, from_it=fi,
+                    boxes=permute(resolve(levels[grl]["n"], rg["dec"]),
+                                  rg["perm"]))]
         # next restart starts `overlap` coarse steps before this one's end
         a = max(0, b + 1 - min(rc["overlap"], b - a + 1))
     # cost bound: keep the leading groups with nvars * ncomp <= MAX_VAR_COMP
-    maxcomp = max(len(bx) for rs in rss for bx in rs["boxes"])
+    maxcomp = max([len(bx) for rs in rss for bx in rs["boxes"]]
+                  + [len(g["boxes"]) for rs in rss
+                     for g in rs.get("regrid", [])])
     groups, nv = [], 0
     for g in case["groups"]:
         k = len(etgen.GROUPS[g][1])
